@@ -22,7 +22,7 @@ ASSUMPTIONS = ["statistical channel: 2e5 draws per law, 7 standard errors per mo
                "nearest-neighbour near-ties within 1e-9 relative squared distance accept either design"]
 N = {"quick": 96, "thorough": 9600}
 REQUIRE = {"quick": {"lookup_events": 1500, "law_events": 24, "law_correlated": 12, "decoupled_events": 600,
-                     "immutability_events": 1000, "branin_zero_inputs": 30, "dataset_checks": 4,
+                     "immutability_events": 1000, "branin_zero_inputs": 30, "dataset_checks": 4, "dataset_raw_file_checks": 4,
                      "normalize_events": 200, "closest_events": 100, "normalize_out_of_bounds_events": 100}}
 TIMEOUT = {"quick": 900, "thorough": 3600}
 NDRAW = 200_000
@@ -321,6 +321,29 @@ def check_datasets(mon):
             mon.violation("dataset:not-standardised", f"{name}: mean {ds.out_data.mean(0)} std {ds.out_data.std(0)}", case)
         if not np.all(np.isfinite(ds.in_data)) or not np.all(np.isfinite(ds.out_data)):
             mon.violation("dataset:not-finite", name, case)
+        # "scaled" / "standardised" versions OF THE BUNDLED FILE: inputs are the min-max image of the raw input columns,
+        # objectives the standardised raw objective columns (up to the sign convention of a maximisation problem)
+        try:
+            from importlib.resources import files
+
+            fname = {"Test": "test.npy", "SNW": "sort_256.csv", "DiskBrake": "brake.npy", "VehicleSafety": "VehicleSafety.npy"}[name]
+            path = files("vopy.datasets.data").joinpath(fname)
+            raw = np.genfromtxt(path, delimiter=";") if fname.endswith(".csv") else np.load(path, allow_pickle=True)
+            raw = np.asarray(raw, float)
+            rin, rout = raw[:, :d], raw[:, d:d + m]
+            span = rin.max(0) - rin.min(0)
+            want_in = (rin - rin.min(0)) / np.where(span > 0, span, 1.0)
+            if raw.shape[0] != n or np.abs(want_in - ds.in_data).max() > 1e-9:
+                mon.violation("dataset:inputs-not-scaled-raw", f"{name}: in_data is not the min-max image of the raw input columns "
+                              f"(max deviation {np.abs(want_in - ds.in_data).max():.3g})", case)
+            want_out = (rout - rout.mean(0)) / rout.std(0)
+            dev = np.minimum(np.abs(want_out - ds.out_data).max(0), np.abs(want_out + ds.out_data).max(0))
+            if dev.max() > 1e-9:
+                mon.violation("dataset:objectives-not-standardised-raw", f"{name}: out_data is not the standardised raw objective columns "
+                              f"(per-column deviation {dev})", case)
+            mon.count("dataset_raw_file_checks")
+        except FileNotFoundError:
+            mon.count("dataset_raw_file_missing")
 
 
 def check_normalize(mon, rng):
